@@ -470,6 +470,9 @@ def _gcd(ex, args, n):
     ex.assume(z3.Implies(a != 0, g <= z3.If(a >= 0, a, -a)))
     ex.assume(z3.Implies(b != 0, g <= z3.If(b >= 0, b, -b)))
     ex.assume(z3.Implies(z3.Or(a != 0, b != 0), COPRIME(ka, kb)))
+    ex.assume(z3.Implies(COPRIME(a, b), g == 1))
+    ex.assumed.add('std::gcd characterised by divisibility, bounds, gcd(a,a)=|a| and the uninterpreted predicate coprime '
+                   '(coprime(a/g, b/g); coprime(a,b) => gcd(a,b) = 1)')
     ex.gcd_terms = getattr(ex, 'gcd_terms', []) + [(a, b, g, ka, kb)]
     return g
 
